@@ -73,8 +73,43 @@ fn cases(thorough: bool) -> Vec<Case> {
         hays: vec![h1, h2],
         utf8: true,
     });
+    // more than 65 535 patterns (output positions and values above 0xffff): every pair over 272
+    // two-byte characters, registered in code-point order, plus some triples; the haystack walks the
+    // *last* pairs (highest output positions) and the triples
+    {
+        let al: Vec<char> = (0..272u32).map(|i| char::from_u32(0x100 + i).unwrap()).collect();
+        let mut pats: Vec<Vec<u8>> = Vec::new();
+        for &a in &al {
+            for &b in &al {
+                let mut s = String::new();
+                s.push(a);
+                s.push(b);
+                pats.push(s.into_bytes());
+            }
+        }
+        for i in 0..300usize {
+            let mut s = String::new();
+            s.push(al[271 - i % 7]);
+            s.push(al[(i * 5) % 272]);
+            s.push(al[(i * 11 + 3) % 272]);
+            pats.push(s.into_bytes());
+        }
+        let mut hay = String::new();
+        for i in 0..600usize {
+            hay.push(al[271 - i % 5]);
+            hay.push(al[(i * 7) % 272]);
+            hay.push(al[(i * 11 + 3) % 272]);
+            hay.push(al[i % 272]);
+        }
+        v.push(Case {
+            name: "74284 patterns (output positions and values above 65535), char pairs".into(),
+            pats,
+            hays: vec![hay.into_bytes()],
+            utf8: true,
+        });
+    }
     if thorough {
-        // more than 65 535 patterns: every 2-byte string over 256 labels and some 3-byte strings
+        // the same with raw bytes: every 2-byte string over 256 labels and some 3-byte strings
         let mut pats: Vec<Vec<u8>> = Vec::new();
         for a in 0..=255u8 {
             for b in 0..=255u8 {
@@ -84,9 +119,14 @@ fn cases(thorough: bool) -> Vec<Case> {
         for i in 0..5000usize {
             pats.push(vec![(i % 256) as u8, (i / 256) as u8, 0xff - (i % 7) as u8]);
         }
-        let hay: Vec<u8> = (0..4000usize).map(|i| ((i * 37 + i / 11) % 256) as u8).collect();
+        let mut hay: Vec<u8> = (0..4000usize).map(|i| ((i * 37 + i / 11) % 256) as u8).collect();
+        for i in 0..2000usize {
+            hay.push(0xff - (i % 3) as u8);
+            hay.push((i % 256) as u8);
+            hay.push(0xff - (i % 7) as u8);
+        }
         v.push(Case {
-            name: "70536 patterns (values above 65535)".into(),
+            name: "70536 patterns (values above 65535), raw bytes".into(),
             pats,
             hays: vec![hay],
             utf8: false,
@@ -158,7 +198,7 @@ pub fn scale_cases(prop: &str, kinds: &[Kind], methods: &[Method], tier: &str, a
         let _ = (hex(&[]), &b as &Built);
     });
     acc.merge(a);
-    bounds.push(format!("scale cases: haystacks of 255/256/257/65535/65536/65537/70001 bytes, a 66000-byte pattern{} x both variants x kinds {:?}", if thorough { ", 70536 patterns" } else { "" }, kinds.iter().map(|k| k.name()).collect::<Vec<_>>()));
+    bounds.push(format!("scale cases: haystacks of 255/256/257/65535/65536/65537/70001 bytes, a 66000-byte pattern, 74284 patterns{} x both variants x kinds {:?}", if thorough { ", 70536 byte patterns" } else { "" }, kinds.iter().map(|k| k.name()).collect::<Vec<_>>()));
 }
 
 /// Replays a scale finding by re-running all scale cases of the property.
